@@ -280,7 +280,8 @@ func (u *UnitGen) get(st *State, key string, so Sort) Term {
 		so = u.varSort[key]
 	}
 	u.varSort[key] = so
-	if strings.HasPrefix(key, "RC:") {
+	if strings.HasPrefix(key, "RC:") || (strings.HasPrefix(key, "D:") && so == SBool) {
+		// region-changed flags and "this defer statement was executed" flags start false
 		u.init[ikey] = TFalse
 		return TFalse
 	}
